@@ -5,6 +5,7 @@
 import Rsactor.Inv.Cap
 import Rsactor.Ties.send_paths_shape
 import Rsactor.Inv.Progress
+import Rsactor.Inv.OkAcc
 
 namespace Rsactor.Props.C09
 open Rsactor Rsactor.Model Rsactor.Extracted
@@ -86,6 +87,26 @@ theorem no_idle_slot (cap : Nat) (sc : Script) (ls : List Label) (s : Sys)
   have h1 := hn ho hu
   have h2 := hc.1
   omega
+
+/-- `ok_tell_was_accepted`: "a send waits, it is not dropped", seen from the caller: in every reachable state, a tell
+    that has returned Ok went into the channel - its `accepted` event is in the history - or, in the one window in
+    which that cannot be (the actor dropped its receivers while the sender already held its slot), the actor has
+    ended and the message lies in the closed channel.  No Ok is ever reported for a message that is nowhere.
+    (The trace monitor `C09.okMeansAccepted` checks the same, with the order of the two events, on every real trace.) -/
+theorem ok_tell_was_accepted (cap : Nat) (sc : Script) (ls : List Label) (s : Sys)
+    (hr : run? (init cap sc) ls = some s) (oid a : Nat) (hret : Ev.ret oid .ok a ∈ s.ev)
+    (hk : (s.spec oid).kind = .tell) :
+    (∃ i, Ev.accepted oid i ∈ s.ev) ∨ (s.rxOpen = false ∧ Item.env oid .tell ∈ s.stranded) := by
+  obtain ⟨⟨_, _, _, _, hp⟩, _⟩ := AllInv_run cap sc ls s hr
+  rcases ok_run cap sc ls s hr oid a hret hk with h | h
+  · exact Or.inl h
+  · refine Or.inr ⟨hp.2.2 ?_, h⟩
+    intro h0; rw [h0] at h; cases h
+
+-- the premises are satisfiable: a tell accepted by a running actor has returned Ok after its `accepted` event
+example : ∃ s, run? (init 1 {}) [.gate, .startDone, .issue 0 { kind := .tell }, .push 0] = some s ∧
+    Ev.ret 0 .ok 0 ∈ s.ev ∧ Ev.accepted 0 0 ∈ s.ev := by
+  refine ⟨_, rfl, ?_, ?_⟩ <;> decide
 
 /-- the control channel holds exactly one signal -/
 theorem term_channel_capacity : term_chan_cap = 1 := rfl
